@@ -104,7 +104,7 @@ Lemma reject_pure_lemma : forall v s l s' o r, v_fb_fix v = true -> step v s l =
   rets s' = (o, r) :: rets s -> r = RNotPresent \/ r = RNotFound \/ r = RNotInit ->
   observe s' = observe s.
 Proof.
-  intros v s l s' o r Hv H R D. step_cases H; unf; simpl in *;
+  intros v s l s' o r Hv H R D. use_fb_fix Hv H. step_cases H; unf; simpl in *;
     try (rewrite Hv in *; try discriminate);
     try (symmetry in R; apply cons_neq in R; destruct R);
     try match goal with b : bool |- _ => destruct b end;
@@ -226,7 +226,7 @@ Proof.
     rewrite X. eauto.
   - exists (InsSend i). enabled W Hin. rewrite (R eq_refl). eauto.
   - exists (FbLoad i). enabled W Hin. destruct (tracked i s); eauto.
-  - exists (FbCas i). enabled W Hin. destruct (tracked i s); eauto.
+  - exists (FbCas i). enabled W Hin. destruct (tracked i s); simpl; eauto.
   - exfalso. pose proof (sumw_In_le w_orig _ _ Hin) as Z. simpl in Z. pose proof (w_noorig s W). lia.
   - destruct (closed_test_total s) as [a [x C]].
     exists (FbCheck i a). enabled W Hin. rewrite C. destruct x; eauto.
